@@ -5,7 +5,7 @@ from .. import common as C
 from .. import concrun as K
 
 LEVEL = "proof"
-N = {"quick": 24, "thorough": 1500}
+N = {"quick": 24, "thorough": 250}
 
 
 def run_cases(chk, binr, cases, pf_ok, pf):
